@@ -201,9 +201,12 @@ func runBase(wk *worker, idx int, spec zipgen.Archive, restrict []string) baseRe
 
 func main() {
 	run = vlib.NewRun("C17", "model_checking")
-	budget := 150 * time.Second
+	// safety nets only (the unchanged tree needs about 110 s / 20 min on an idle machine): a run that
+	// is cut short folds its symptoms into fewer general classes, so its keys are not comparable with
+	// the recorded findings; the budget is therefore far above the normal cost
+	budget := 20 * time.Minute
 	if run.Thorough() {
-		budget = 25 * time.Minute
+		budget = 90 * time.Minute
 	}
 	if v := os.Getenv("C17_BUDGET_S"); v != "" {
 		var s int
